@@ -1,6 +1,7 @@
 (* C12 — Label-requirement algebra agrees with set semantics.
    Values are arbitrary strings, bounds arbitrary int64; nothing is bounded. *)
-From KV Require Import Base.Req Base.K8s Base.ReqProofs.
+From Coq Require Import Permutation.
+From KV Require Import Base.Req Base.K8s Base.ReqProofs C12.ProofsAdd.
 Open Scope Z_scope.
 
 (* A requirement built from any operator admits exactly the label values Kubernetes admits
@@ -65,6 +66,30 @@ Theorem add_narrows : forall (m : reqs) (k : string) (r : req) (k0 v : string),
   if String.eqb k0 k then has r v && has (get m k0) v else has (get m k0) v.
 Proof. exact get_add1. Qed.
 Print Assumptions add_narrows.
+
+(* ... and over a whole sequence: what a key admits after Add(rs...) is what it admitted before, intersected
+   with every added requirement of that key (nothing else changes, for any key and value) *)
+Theorem add_sequence_admits : forall (rs : list (string * req)) (m : reqs) (k0 v : string),
+  has (get (add m rs) k0) v = has (get m k0) v && all_admit rs k0 v.
+Proof. exact get_add_all. Qed.
+Print Assumptions add_sequence_admits.
+
+(* the order in which requirements are added never matters for the admitted set of any key *)
+Theorem add_order_irrelevant : forall (rs rs' : list (string * req)) (m : reqs) (k0 v : string),
+  Permutation rs rs' -> has (get (add m rs) k0) v = has (get (add m rs') k0) v.
+Proof. exact add_perm. Qed.
+Print Assumptions add_order_irrelevant.
+
+(* Add never widens a key, and re-adding the same requirements is a no-op on admitted sets *)
+Theorem add_never_widens : forall (rs : list (string * req)) (m : reqs) (k0 v : string),
+  has (get (add m rs) k0) v = true -> has (get m k0) v = true.
+Proof. exact add_monotone. Qed.
+Print Assumptions add_never_widens.
+
+Theorem add_idempotent : forall (rs : list (string * req)) (m : reqs) (k0 v : string),
+  has (get (add (add m rs) rs) k0) v = has (get (add m rs) k0) v.
+Proof. exact add_twice. Qed.
+Print Assumptions add_idempotent.
 
 Theorem add_keeps_invariants : forall (rs : list (string * req)) (m : reqs),
   Forall (fun kr => wf (snd kr)) rs -> wf_reqs m /\ nodup_keys m ->
